@@ -20,6 +20,60 @@ the container step is visible in these definitions and nowhere else:
   satisfies the containers' invariants: `C12.ea_step_refines` …);
 * a failed `assert` of `seqptrmap_add` is the answer `assert` and leaves the protocol state alone.
 -/
+namespace Percival.Model.DsStep
+open Percival.Spec.DS Percival.Spec.DSMon
+
+def headOfSt : St → Head
+  | .ok => .ok | .fail => .fail | .oob => .other
+
+def headOfWord : Word → Head
+  | .ok => .ok | .skip => .skip | _ => .other
+
+/-- how `recs=` is read back: `?` (a record that could not be read) makes the field unreadable; a single empty
+record prints as `-`, which reads as "no records" (records are never empty: record lengths are positive) -/
+def recsAns (l : List (Option (List UInt8))) : Option (List (List UInt8)) :=
+  if l = [some []] then some [] else l.mapM id
+
+/-- **What the monitor sees of a line of the model**: `Driver/Ds.render` prints the typed output, the part before
+` | ` is cut into tokens and `Driver/Dsmon.parseAns` reads them into an `Ans`; `Out.ans` is that composition as a
+typed function (`KAT/DsAns.lean` checks `parseAns (tokens of render o) = o.ans` on an output of every shape). -/
+def Out.ans : Out → Ans
+  | .word w => { head := headOfWord w, ntoks := 1 }
+  | .ended live _ =>
+      { head := .end_, ntoks := 3, live := if 0 ≤ live then some live.toNat else none, leaked := some 0 }
+  | .initFail rf _ => { head := .fail, ntoks := 2, rf := some rf }
+  | .ea st sz al rf none _ => { head := headOfSt st, ntoks := 4, sz := some sz, al := some al, rf := some rf }
+  | .ea st sz al rf (some (n, b)) _ =>
+      { head := headOfSt st, ntoks := 6, sz := some sz, al := some al, rf := some rf, n := some n, out := .val b }
+  | .eaExport rf n b _ => { head := .ok, ntoks := 4, rf := some rf, n := some n, out := .val b }
+  | .freed _ => { head := .ok, ntoks := 1 }
+  | .eq st len rf .none _ => { head := headOfSt st, ntoks := 3, len := some len, rf := some rf }
+  | .eq st len rf .null _ => { head := headOfSt st, ntoks := 4, len := some len, rf := some rf, null := true }
+  | .eq st len rf (.record b) _ => { head := headOfSt st, ntoks := 4, len := some len, rf := some rf, recd := .val b }
+  | .eq st len rf (.recs l) _ =>
+      { head := headOfSt st, ntoks := 4, len := some len, rf := some rf, recs := some (recsAns l) }
+  | .smInit rf _ => { head := .ok, ntoks := 2, rf := some rf }
+  | .sm st rf num ptr _ =>
+      { head := headOfSt st, ntoks := 2 + (if num.isSome then 1 else 0) + (if ptr.isSome then 1 else 0),
+        rf := some rf, num := num, ptr := ptr }
+  | .mp rf .none _ => { head := .ok, ntoks := 2, rf := some rf }
+  | .mp rf .null _ => { head := .ok, ntoks := 3, rf := some rf, null := true }
+  | .mp rf (.obj x) _ => { head := .ok, ntoks := 3, rf := some rf, obj := some x }
+  | .mpExit _ => { head := .ok, ntoks := 2, leaked := some 0 }
+
+/-- operations the generators produce (and the C harness can execute): record lengths are positive (the C asserts
+it), a queue's record length fits `size_t` with room for the largest array the harness' allocator grants, stored
+pointers are non-NULL 64-bit values -/
+def OpOk : Op → Prop
+  | .eaInit _ r _ | .eaResize _ r _ | .eaAppend _ r _ | .eaShrink _ r | .eaGetsize r | .eaDup r | .eaExport r => 0 < r
+  | .eqInit r => 0 < r ∧ r + cap ≤ SIZE_MAX
+  | .smAdd p => 0 < p ∧ p < 2^64
+  | _ => True
+
+instance : DecidablePred OpOk := fun op => by cases op <;> simp only [OpOk] <;> infer_instance
+
+end Percival.Model.DsStep
+
 namespace Percival.Proofs.DsStep
 open Percival.Model Percival.Model.DsStep Percival.Spec.DS Percival.Spec.DSMon
 open Percival.Proofs.EArray
@@ -723,5 +777,564 @@ theorem ea_step_frame (a : EArray.EA) (e : EaOp) (m : Mem) :
     rcases hres : EArray.exportdup a r m with ⟨st, out, m'⟩
     rw [hres] at hf
     exact ⟨hf, fun _ h => h⟩
+
+/-! ## the relation between the model's state and the monitor's state -/
+
+def eaBlk : Option EArray.EA → Int
+  | some a => 1 + bufBlocks a | none => 0
+def eqBlk : Option EQueue.EQ → Int
+  | some q => 2 + bufBlocks q.ea | none => 0
+def smBlk : Option SeqMap.SM → Int
+  | some x => 3 + bufBlocks x.q.ea | none => 0
+
+def EaRel : Option EArray.EA → Option EaIdeal → Prop
+  | some a, i => Inv a ∧ a.alloc ≤ cap ∧ i = some (EArray.abs a)
+  | none, i => i = none
+
+def EqRel : Option EQueue.EQ → Option (List (List UInt8)) → Nat → Prop
+  | some q, i, eqr => EQueue.QInv q ∧ q.ea.alloc ≤ cap ∧ q.reclen.val + cap ≤ SIZE_MAX ∧ i = some (EQueue.abs q) ∧
+      eqr = q.reclen.val
+  | none, i, _ => i = none
+
+/-- `n`: an upper bound for the numbers the map has issued (the number of protocol operations so far) -/
+def SmRel (n : Nat) : Option SeqMap.SM → Option SmIdeal → Prop
+  | some x, i => SeqMap.MInv x ∧ x.q.ea.alloc ≤ cap ∧ x.offset + x.len ≤ n ∧ i = some (SeqMap.abs x)
+  | none, i => i = none
+
+/-- **reachable pairs (model state, monitor state)** after `n` operations: the oracle never grants more than `cap`
+bytes; each container that exists satisfies its invariant and the monitor holds exactly its abstraction; the
+harness' and the monitor's lists of objects in use are the same list; and the number of live blocks is accounted
+for: structure + buffer of each container, pool objects in use, cached objects, the pool's stack. -/
+structure Rel (n : Nat) (s : DsStep.S) (ms : Spec.DSMon.S) : Prop where
+  capped : Capped s.m
+  ea : EaRel s.ea ms.ea
+  eq : EqRel s.eq ms.eq ms.eqr
+  sm : SmRel n s.sm ms.sm
+  mp : MPool.R s.mp s.m s.inUse (eaBlk s.ea + eqBlk s.eq + smBlk s.sm)
+  inUse : ms.inUse = s.inUse
+
+theorem SmRel.mono {n n' : Nat} (h : n ≤ n') {o : Option SeqMap.SM} {i : Option SmIdeal} (hr : SmRel n o i) :
+    SmRel n' o i := by
+  cases o with
+  | none => exact hr
+  | some x => exact ⟨hr.1, hr.2.1, by have := hr.2.2.1; omega, hr.2.2.2⟩
+
+theorem R_transport {p : MPool.MP} {m m' : Mem} {u : List Nat} {base base' : Int} (h : MPool.R p m u base)
+    (e : Ext m m') (hl : m'.live + base = m.live + base') : MPool.R p m' u base' :=
+  ⟨h.nodup, h.unodup, h.disj, fun x hx => Nat.lt_of_lt_of_le (h.sfresh x hx) e.2.1,
+   fun x hx => Nat.lt_of_lt_of_le (h.ufresh x hx) e.2.1, h.slen, by have := h.live; omega⟩
+
+theorem rel_init : Rel 0 {} {} :=
+  ⟨by intro i sz h; simp [sched] at h; exact h, rfl, rfl, rfl, MPool.init_R 4 _, rfl⟩
+
+/-! ## elastic array: the monitor accepts the model's answers -/
+
+theorem rf_pos {m m' : Mem} (e : Ext m m') : decide (rf m m' > 0) = (m'.refusals != m.refusals) := by
+  have := e.2.2
+  simp only [rf]
+  by_cases h : m'.refusals = m.refusals
+  · simp [h]
+  · have : m'.refusals - m.refusals > 0 := by omega
+    simp [h, this]
+
+/-- reading the printed array line back gives the observed answer -/
+theorem eaAns_out (an : EaAns) (m m' mEnd : Mem) (hst : an.st ≠ .oob) (hrf : an.refused = decide (rf m m' > 0)) :
+    eaAns (eaOutOf an m m' mEnd).ans = some an := by
+  obtain ⟨st, size, alloc, refused, out⟩ := an
+  simp only at hst hrf
+  subst hrf
+  cases out with
+  | none => cases st <;> simp_all [eaOutOf, Out.ans, eaAns, stOf, headOfSt]
+  | some p => obtain ⟨b, n⟩ := p; cases st <;> simp_all [eaOutOf, Out.ans, eaAns, stOf, headOfSt]
+
+theorem eaOutOf_not_skip (an : EaAns) (m m' mEnd : Mem) : (eaOutOf an m m' mEnd).ans.isJust .skip = false := by
+  obtain ⟨st, size, alloc, refused, out⟩ := an
+  cases out with
+  | none => cases st <;> simp [eaOutOf, Out.ans, Ans.isJust, headOfSt]
+  | some p => obtain ⟨b, n⟩ := p; cases st <;> simp [eaOutOf, Out.ans, Ans.isJust, headOfSt]
+
+/-- the array operation the *monitor* judges (differs from `eaOpOf` only in the fill of a resize no allocation can
+hold) -/
+def monEaOpOf (len : Nat) : Op → Option EaOp
+  | .eaResize n reclen seed => (mkRecLen reclen).map fun r =>
+      .resize n r (if n * r.val ≤ dataMax then patBytes seed (n * r.val - len) else [])
+  | op => eaOpOf len op
+
+theorem mon_ea (ms : Spec.DSMon.S) (i : EaIdeal) (hms : ms.ea = some i) (op : Op) (e : EaOp)
+    (he : monEaOpOf i.bytes.length op = some e) (A : Ans) (hskip : A.isJust .skip = false) :
+    ∃ why, monStep ms op A = eaJudge ms i e A why := by
+  cases op <;> simp only [monEaOpOf, eaOpOf, Option.map_eq_some_iff, reduceCtorEq, Option.some.injEq] at he
+  case eaResize n reclen seed => obtain ⟨r, hr, rfl⟩ := he; exact ⟨_, by simp only [monStep, hms, hr]; rfl⟩
+  case eaAppend n reclen seed => obtain ⟨r, hr, rfl⟩ := he; exact ⟨_, by simp only [monStep, hms, hr]; rfl⟩
+  case eaShrink n reclen => obtain ⟨r, hr, rfl⟩ := he; exact ⟨_, by simp only [monStep, hms, hr]; rfl⟩
+  case eaTrunc => subst he; exact ⟨_, by simp only [monStep, hms]; rfl⟩
+  case eaGet pos reclen =>
+    obtain ⟨r, hr, rfl⟩ := he; exact ⟨_, by simp only [monStep, hms, hr, hskip]; simp only [Bool.false_eq_true, if_false]; rfl⟩
+  case eaSet pos reclen seed =>
+    obtain ⟨r, hr, rfl⟩ := he; exact ⟨_, by simp only [monStep, hms, hr, hskip]; simp only [Bool.false_eq_true, if_false]; rfl⟩
+  case eaGetsize reclen => obtain ⟨r, hr, rfl⟩ := he; exact ⟨_, by simp only [monStep, hms, hr]; rfl⟩
+  case eaDup reclen => obtain ⟨r, hr, rfl⟩ := he; exact ⟨_, by simp only [monStep, hms, hr]; rfl⟩
+
+theorem eaJudge_accept (ms : Spec.DSMon.S) (i i' : EaIdeal) (e : EaOp) (A : Ans) (why : String) (an : EaAns)
+    (h1 : eaAns A = some an) (h2 : eaAdmit i e an = some i') :
+    eaJudge ms i e A why = ({ ms with ea := some i' }, none) := by
+  simp [eaJudge, h1, h2]
+
+theorem bufBlocks_congr {a a' : EArray.EA} (h : a'.alloc = a.alloc) : bufBlocks a' = bufBlocks a := by
+  simp [bufBlocks, h]
+
+theorem fillFrom_alloc {a a' : EArray.EA} {old : Nat} {fill : List UInt8} (h : EArray.fillFrom a old fill = some a') :
+    a'.alloc = a.alloc := by
+  unfold EArray.fillFrom at h
+  split at h
+  · cases h; rfl
+  · split at h
+    · simp only [Option.map_eq_some_iff] at h
+      obtain ⟨b, _, rfl⟩ := h; rfl
+    · cases h
+
+/-- live blocks across one array step (after the harness freed the copy of a successful `exportdup`) -/
+theorem ea_step_live (a : EArray.EA) (e : EaOp) (m : Mem) (h : Inv a) (hc : eaContract (EArray.abs a) e) :
+    (eaHarnessFree e (EArray.step a e m).1 (EArray.step a e m).2.2).live + bufBlocks a =
+      m.live + bufBlocks (EArray.step a e m).2.1 := by
+  cases e with
+  | resize n r fill =>
+    have hs := (resizeRec_spec a n r m h).2.2.2
+    simp only [EArray.step]
+    rcases hres : EArray.resizeRec a n r m with ⟨ok, a', m'⟩
+    rw [hres] at hs
+    cases ok
+    · exact hs
+    · simp only
+      cases hfl : EArray.fillFrom a' a.size fill
+      · exact hs
+      · simp only [eaHarnessFree]; rw [bufBlocks_congr (fillFrom_alloc hfl)]; exact hs
+  | append data n r =>
+    have hs := (append_spec a data n r m h (by
+      intro hle; simp only [eaContract] at hc; rw [hc (by rw [← SIZE_MAX_same]; exact hle)]; exact Nat.le_refl _)).2.2.2.2
+    simp only [EArray.step]
+    rcases hres : EArray.append a data n r m with ⟨st, a', m'⟩
+    rw [hres] at hs; exact hs
+  | shrink n r =>
+    have hs := (shrink_spec a n r m h).2.2.2.2
+    simp only [EArray.step]
+    rcases hres : EArray.shrink a n r m with ⟨a', m'⟩
+    rw [hres] at hs; exact hs
+  | truncate =>
+    have hs := (truncate_spec a m h).2.2.2
+    simp only [EArray.step]
+    rcases hres : EArray.truncate a m with ⟨ok, a', m'⟩
+    rw [hres] at hs
+    cases ok <;> exact hs
+  | get pos r => simp only [EArray.step]; split <;> rfl
+  | set pos r rec =>
+    simp only [EArray.step]
+    split
+    · rename_i a' ha; simp only [eaHarnessFree]; rw [bufBlocks_congr (setRec_alloc ha)]
+    · rfl
+  | getsize r => rfl
+  | exportdup r =>
+    have hs := exportdup_spec a r m h
+    simp only [EArray.step]
+    rcases hres : EArray.exportdup a r m with ⟨st, out, m'⟩
+    rw [hres] at hs
+    simp only at hs
+    rcases hs with ⟨rfl, rfl, _, hl⟩ | ⟨rfl, rfl, _, hl⟩
+    · simp only [eaHarnessFree, EArray.ans]
+      rw [(free_facts m' false).2.1, hl]; simp
+    · simp only [eaHarnessFree, EArray.ans]; rw [hl]
+
+theorem ea_step_refused (a : EArray.EA) (e : EaOp) (m : Mem) :
+    (EArray.step a e m).1.refused = ((EArray.step a e m).2.2.refusals != m.refusals) := by
+  cases e <;> simp only [EArray.step] <;> (repeat' split) <;> simp_all [EArray.ans]
+
+theorem eaHarnessFree_ext (e : EaOp) (an : EaAns) (m' : Mem) : Ext m' (eaHarnessFree e an m') := by
+  unfold eaHarnessFree; split
+  · exact ext_free _ _
+  · exact Ext.refl _
+
+/-- what one accepted protocol step has to establish -/
+def StepGoal (n : Nat) (s : DsStep.S) (ms : Spec.DSMon.S) (op : Op) : Prop :=
+  (monStep ms op (stepOp s op).2.ans).2 = none ∧
+  Rel (n + 1) (stepOp s op).1 (monStep ms op (stepOp s op).2.ans).1
+
+theorem ea_accept_core {n : Nat} {s : DsStep.S} {ms : Spec.DSMon.S} (h : Rel n s ms) {a : EArray.EA}
+    (hs : s.ea = some a) {op : Op} {e emon : EaOp} (he : eaOpOf a.size op = some e)
+    (hem : monEaOpOf a.size op = some emon)
+    (hInv' : Inv (EArray.step a e s.m).2.1)
+    (hadm : eaAdmit (EArray.abs a) emon (EArray.step a e s.m).1 = some (EArray.abs (EArray.step a e s.m).2.1))
+    (hlive : (eaHarnessFree e (EArray.step a e s.m).1 (EArray.step a e s.m).2.2).live + bufBlocks a =
+      s.m.live + bufBlocks (EArray.step a e s.m).2.1) : StepGoal n s ms op := by
+  have hea := h.ea
+  have hmp := h.mp
+  rw [hs] at hea hmp
+  obtain ⟨hinv, hcap, hms⟩ := hea
+  have hno := eaAdmit_not_oob hadm
+  have frame := ea_step_frame a e s.m
+  have hext := frame.1.trans (eaHarnessFree_ext e (EArray.step a e s.m).1 (EArray.step a e s.m).2.2)
+  unfold StepGoal
+  rw [ea_stepOp s a hs op e he hno]
+  simp only
+  obtain ⟨why, hmon⟩ := mon_ea ms (EArray.abs a) hms op emon (by rw [abs_length hinv]; exact hem)
+    (eaOutOf (EArray.step a e s.m).1 s.m (EArray.step a e s.m).2.2
+      (eaHarnessFree e (EArray.step a e s.m).1 (EArray.step a e s.m).2.2)).ans (eaOutOf_not_skip _ _ _ _)
+  rw [hmon, eaJudge_accept ms _ _ emon _ why _
+    (eaAns_out _ _ _ _ hno (by rw [ea_step_refused, rf_pos frame.1])) hadm]
+  refine ⟨rfl, ⟨h.capped.ext hext, ⟨hInv', frame.2 h.capped hcap, rfl⟩, h.eq, h.sm.mono (Nat.le_succ _), ?_, h.inUse⟩⟩
+  refine R_transport hmp hext ?_
+  simp only [eaBlk]
+  omega
+
+theorem cap_eq : cap = 4194304 := by decide
+theorem dataMax_eq : dataMax = 4194304 := by decide
+
+theorem patBytes_length (seed n : Nat) : (patBytes seed n).length = n := by simp [patBytes]
+
+theorem fillFrom_size {a a' : EArray.EA} {old : Nat} {fill : List UInt8} (h : EArray.fillFrom a old fill = some a') :
+    a'.size = a.size := by
+  unfold EArray.fillFrom at h
+  split at h
+  · cases h; rfl
+  · split at h
+    · simp only [Option.map_eq_some_iff] at h
+      obtain ⟨b, _, rfl⟩ := h; rfl
+    · cases h
+
+/-- an append that fails never looked at the caller's buffer -/
+theorem append_fail_irrel (a : EArray.EA) (data data' : List UInt8) (n : Nat) (r : RecLen) (m : Mem)
+    (h : (EArray.append a data n r m).1 = .fail) : EArray.append a data' n r m = EArray.append a data n r m := by
+  unfold EArray.append at h ⊢
+  simp only at h ⊢
+  split
+  · rfl
+  · rename_i hg
+    rw [if_neg hg] at h
+    rcases hres : EArray.resize a ((a.size + (n * r.val) % EArray.SZ) % EArray.SZ) m with ⟨ok, a', m'⟩
+    rw [hres] at h
+    cases ok
+    · rfl
+    · exfalso
+      simp only at h
+      split at h
+      · split at h
+        · cases h
+        · split at h <;> cases h
+      · cases h
+
+/-- a successful resize under the harness' oracle stays below `cap` bytes -/
+theorem resize_ok_small (a : EArray.EA) (n : Nat) (r : RecLen) (fill : List UInt8) (m : Mem)
+    (hcap : a.alloc ≤ cap) (hc : Capped m) (hinv' : Inv (EArray.step a (.resize n r fill) m).2.1)
+    (hok : (EArray.step a (.resize n r fill) m).1.st = .ok) : n * r.val ≤ cap := by
+  have frame := (ea_step_frame a (.resize n r fill) m).2 hc hcap
+  have hsz := resizeRec_size a n r m
+  revert hinv' hok frame
+  simp only [EArray.step]
+  rcases hres : EArray.resizeRec a n r m with ⟨ok, a', m'⟩
+  rw [hres] at hsz
+  cases ok
+  · simp [EArray.ans]
+  · simp only
+    cases hfl : EArray.fillFrom a' a.size fill
+    · simp [EArray.ans]
+    · intro hinv' _ frame
+      have := fillFrom_size hfl
+      have := hinv'.le
+      have := hsz rfl
+      simp only at *
+      omega
+
+theorem ea_resize_accept {n : Nat} {s : DsStep.S} {ms : Spec.DSMon.S} (h : Rel n s ms) {a : EArray.EA}
+    (hs : s.ea = some a) (k reclen seed : Nat) (hr : 0 < reclen) : StepGoal n s ms (.eaResize k reclen seed) := by
+  have hea := h.ea
+  rw [hs] at hea
+  obtain ⟨hinv, hcap, hms⟩ := hea
+  have hmk : mkRecLen reclen = some ⟨reclen, hr⟩ := by simp [mkRecLen, hr]
+  have hc : eaContract (EArray.abs a) (.resize k ⟨reclen, hr⟩ (patBytes seed (k * reclen - a.size))) := by
+    intro _; rw [abs_length hinv, patBytes_length]
+  have hst := EArray.step_ok a _ s.m hinv hc
+  refine ea_accept_core h hs (e := .resize k ⟨reclen, hr⟩ (patBytes seed (k * reclen - a.size)))
+    (emon := .resize k ⟨reclen, hr⟩ (if k * reclen ≤ dataMax then patBytes seed (k * reclen - a.size) else []))
+    (by simp [eaOpOf, hmk]) (by simp only [monEaOpOf, hmk, Option.map_some]) hst.1 ?_ (ea_step_live a _ s.m hinv hc)
+  rw [← hst.2]
+  by_cases hle : k * reclen ≤ dataMax
+  · simp only [hle, if_true]
+  · simp only [hle, if_false]
+    have hno := eaAdmit_not_oob hst.2
+    have hsmall := resize_ok_small a k ⟨reclen, hr⟩ _ s.m hcap h.capped hst.1
+    generalize (EArray.step a (.resize k ⟨reclen, hr⟩ (patBytes seed (k * reclen - a.size))) s.m).1 = an at *
+    obtain ⟨st, size, alloc, refused, out⟩ := an
+    cases st
+    · exfalso; have := hsmall rfl; simp only [cap_eq, dataMax_eq] at *; omega
+    · simp [eaAdmit]
+    · exact absurd rfl hno
+
+theorem ea_simple_accept {n : Nat} {s : DsStep.S} {ms : Spec.DSMon.S} (h : Rel n s ms) {a : EArray.EA}
+    (hs : s.ea = some a) {op : Op} {e : EaOp} (he : eaOpOf a.size op = some e)
+    (hem : monEaOpOf a.size op = some e) (hc : eaContract (EArray.abs a) e) : StepGoal n s ms op := by
+  have hea := h.ea
+  rw [hs] at hea
+  have hst := EArray.step_ok a e s.m hea.1 hc
+  exact ea_accept_core h hs he hem hst.1 hst.2 (ea_step_live a e s.m hea.1 hc)
+
+theorem mk_some {reclen : Nat} (hr : 0 < reclen) : mkRecLen reclen = some ⟨reclen, hr⟩ := by simp [mkRecLen, hr]
+
+theorem ea_append_accept {n : Nat} {s : DsStep.S} {ms : Spec.DSMon.S} (h : Rel n s ms) {a : EArray.EA}
+    (hs : s.ea = some a) (k reclen seed : Nat) (hr : 0 < reclen) : StepGoal n s ms (.eaAppend k reclen seed) := by
+  have hea := h.ea
+  rw [hs] at hea
+  obtain ⟨hinv, hcap, hms⟩ := hea
+  have hmk := mk_some hr
+  by_cases hle : k ≤ dataMax / reclen
+  · refine ea_simple_accept h hs (e := .append (patBytes seed (k * reclen)) k ⟨reclen, hr⟩)
+      (by simp [eaOpOf, hmk, hle]) (by simp [monEaOpOf, eaOpOf, hmk, hle]) ?_
+    intro _; exact patBytes_length _ _
+  · -- no allocation can hold the result: the dummy buffer is never read
+    have hc : eaContract (EArray.abs a) (.append (patBytes seed (k * reclen)) k ⟨reclen, hr⟩) := by
+      intro _; exact patBytes_length _ _
+    have hst := EArray.step_ok a _ s.m hinv hc
+    have hlive := ea_step_live a _ s.m hinv hc
+    have hsp := append_spec a (patBytes seed (k * reclen)) k ⟨reclen, hr⟩ s.m hinv
+      (by intro _; rw [patBytes_length]; exact Nat.le_refl _)
+    have hfr := (append_frame a (patBytes seed (k * reclen)) k ⟨reclen, hr⟩ s.m).2 h.capped hcap
+    have hfail : (EArray.append a (patBytes seed (k * reclen)) k ⟨reclen, hr⟩ s.m).1 = .fail := by
+      cases hst' : (EArray.append a (patBytes seed (k * reclen)) k ⟨reclen, hr⟩ s.m).1
+      · exfalso
+        have h1 := (hsp.2.2.1 hst').2.1
+        have h2 := hsp.1.le
+        have : k * reclen ≤ dataMax := by simp only [cap_eq, dataMax_eq] at *; omega
+        exact hle ((Nat.le_div_iff_mul_le hr).2 this)
+      · rfl
+      · exact absurd hst' hsp.2.1
+    have hirr := append_fail_irrel a (patBytes seed (k * reclen)) [0] k ⟨reclen, hr⟩ s.m hfail
+    have hstep : EArray.step a (.append [0] k ⟨reclen, hr⟩) s.m =
+        EArray.step a (.append (patBytes seed (k * reclen)) k ⟨reclen, hr⟩) s.m := by
+      simp only [EArray.step, hirr]
+    refine ea_accept_core h hs (e := .append [0] k ⟨reclen, hr⟩) (emon := .append [0] k ⟨reclen, hr⟩)
+      (by simp [eaOpOf, hmk, hle]) (by simp [monEaOpOf, eaOpOf, hmk, hle]) (by rw [hstep]; exact hst.1) ?_
+      (by rw [hstep]; exact hlive)
+    rw [hstep, ← hst.2]
+    have hstf : (EArray.step a (.append (patBytes seed (k * reclen)) k ⟨reclen, hr⟩) s.m).1.st = .fail := by
+      simp only [EArray.step]
+      rcases hres : EArray.append a (patBytes seed (k * reclen)) k ⟨reclen, hr⟩ s.m with ⟨st, a', m'⟩
+      rw [hres] at hfail
+      simp only at hfail
+      subst hfail; rfl
+    simp only [eaAdmit, hstf]
+
+theorem Rel.mono {n : Nat} {s : DsStep.S} {ms : Spec.DSMon.S} (h : Rel n s ms) : Rel (n + 1) s ms :=
+  ⟨h.capped, h.ea, h.eq, h.sm.mono (Nat.le_succ _), h.mp, h.inUse⟩
+
+/-- a line the model answers with a bare word, leaving its state alone, and the monitor accepts, leaving its
+state alone -/
+theorem word_accept {n : Nat} {s : DsStep.S} {ms : Spec.DSMon.S} (h : Rel n s ms) {op : Op} (w : Word)
+    (h1 : stepOp s op = (s, .word w))
+    (h2 : monStep ms op { head := headOfWord w, ntoks := 1 } = (ms, none)) : StepGoal n s ms op := by
+  unfold StepGoal
+  rw [h1]
+  simp only [Out.ans]
+  rw [h2]
+  exact ⟨rfl, h.mono⟩
+
+theorem isJust_skip : ({ head := .skip, ntoks := 1 } : Ans).isJust .skip = true := by decide
+
+/-- the eleven operations on an array when there is none: `skip` -/
+theorem ea_absent_accept {n : Nat} {s : DsStep.S} {ms : Spec.DSMon.S} (h : Rel n s ms) (hs : s.ea = none) (op : Op)
+    (hop : match op with
+      | .eaResize .. | .eaAppend .. | .eaShrink .. | .eaTrunc | .eaGet .. | .eaSet .. | .eaGetsize .. | .eaDump
+      | .eaDup .. | .eaExport .. | .eaFree => True
+      | _ => False) : StepGoal n s ms op := by
+  have hms : ms.ea = none := by have := h.ea; rw [hs] at this; exact this
+  cases op <;> simp only at hop <;>
+    exact word_accept h .skip (by simp [stepOp, onEa, hs]) (by simp [monStep, hms, okOr, isJust_skip, headOfWord])
+
+theorem ea_get_accept {n : Nat} {s : DsStep.S} {ms : Spec.DSMon.S} (h : Rel n s ms) {a : EArray.EA}
+    (hs : s.ea = some a) (pos reclen : Nat) : StepGoal n s ms (.eaGet pos reclen) := by
+  have hea := h.ea
+  rw [hs] at hea
+  obtain ⟨hinv, hcap, hms⟩ := hea
+  have hlen := abs_length hinv
+  by_cases hin : 0 < reclen ∧ pos * reclen + reclen ≤ a.size
+  · have hmk := mk_some hin.1
+    exact ea_simple_accept h hs (e := .get pos ⟨reclen, hin.1⟩) (by simp [eaOpOf, hmk]) (by simp [monEaOpOf, eaOpOf, hmk])
+      (by simp only [eaContract, hlen]; exact hin.2)
+  · refine word_accept h .skip ?_ ?_
+    · by_cases hr : 0 < reclen
+      · have hmk := mk_some hr
+        have : EArray.getRec a pos ⟨reclen, hr⟩ = none := by
+          simp only [EArray.getRec]; rw [if_neg]; intro hh; exact hin ⟨hr, hh⟩
+        simp [stepOp, onEa, hs, hmk, this]
+      · have : mkRecLen reclen = none := by simp [mkRecLen, hr]
+        simp [stepOp, onEa, hs, this]
+    · simp only [monStep, hms, headOfWord, isJust_skip, if_true, hlen]
+      simp only [gt_iff_lt, hin, if_false]
+
+theorem ea_set_accept {n : Nat} {s : DsStep.S} {ms : Spec.DSMon.S} (h : Rel n s ms) {a : EArray.EA}
+    (hs : s.ea = some a) (pos reclen seed : Nat) : StepGoal n s ms (.eaSet pos reclen seed) := by
+  have hea := h.ea
+  rw [hs] at hea
+  obtain ⟨hinv, hcap, hms⟩ := hea
+  have hlen := abs_length hinv
+  by_cases hin : 0 < reclen ∧ pos * reclen + reclen ≤ a.size
+  · have hmk := mk_some hin.1
+    exact ea_simple_accept h hs (e := .set pos ⟨reclen, hin.1⟩ (patBytes seed reclen)) (by simp [eaOpOf, hmk])
+      (by simp [monEaOpOf, eaOpOf, hmk])
+      (by simp only [eaContract, hlen]; exact ⟨hin.2, patBytes_length _ _⟩)
+  · refine word_accept h .skip ?_ ?_
+    · by_cases hr : 0 < reclen
+      · have hmk := mk_some hr
+        have : EArray.setRec a pos ⟨reclen, hr⟩ (patBytes seed reclen) = none := by
+          simp only [EArray.setRec]; rw [if_neg]; intro hh; exact hin ⟨hr, hh.1⟩
+        simp [stepOp, onEa, hs, hmk, this]
+      · have : mkRecLen reclen = none := by simp [mkRecLen, hr]
+        simp [stepOp, onEa, hs, this]
+    · simp only [monStep, hms, headOfWord, isJust_skip, if_true, hlen]
+      simp only [gt_iff_lt, hin, if_false]
+
+theorem ea_free_accept {n : Nat} {s : DsStep.S} {ms : Spec.DSMon.S} (h : Rel n s ms) {a : EArray.EA}
+    (hs : s.ea = some a) : StepGoal n s ms .eaFree := by
+  have hea := h.ea
+  have hmp := h.mp
+  rw [hs] at hea hmp
+  obtain ⟨hinv, hcap, hms⟩ := hea
+  unfold StepGoal
+  simp only [stepOp, onEa, hs, monStep, hms, Out.ans]
+  refine ⟨by decide, ⟨h.capped.ext (ea_free_ext _ _), rfl, h.eq, h.sm.mono (Nat.le_succ _), ?_, h.inUse⟩⟩
+  refine R_transport hmp (ea_free_ext _ _) ?_
+  simp only [eaBlk]
+  rw [EArray.free_live]; omega
+
+theorem ea_dump_accept {n : Nat} {s : DsStep.S} {ms : Spec.DSMon.S} (h : Rel n s ms) {a : EArray.EA}
+    (hs : s.ea = some a) : StepGoal n s ms .eaDump := by
+  have hea := h.ea
+  rw [hs] at hea
+  obtain ⟨hinv, hcap, hms⟩ := hea
+  have hsh := (eaCheck_some (shape_abs hinv .ok s.m s.m (some (a.buf.take a.size, a.size)))).2
+  have hlen := abs_length hinv
+  have e : eaOut .ok a s.m s.m (some (a.size, a.buf.take a.size)) s.m =
+      eaOutOf (EArray.ans .ok a s.m s.m (some (a.buf.take a.size, a.size))) s.m s.m s.m := rfl
+  have hA := eaAns_out (EArray.ans .ok a s.m s.m (some (a.buf.take a.size, a.size))) s.m s.m s.m (by simp [EArray.ans])
+    (by simp [EArray.ans, rf_self])
+  unfold StepGoal
+  simp only [stepOp, onEa, hs, monStep, hms, e, hA, hsh]
+  rw [if_pos ⟨rfl, by rw [hlen]; rfl, trivial⟩]
+  exact ⟨rfl, h.mono⟩
+
+theorem ea_export_accept {n : Nat} {s : DsStep.S} {ms : Spec.DSMon.S} (h : Rel n s ms) {a : EArray.EA}
+    (hs : s.ea = some a) (reclen : Nat) (hr : 0 < reclen) : StepGoal n s ms (.eaExport reclen) := by
+  have hea := h.ea
+  have hmp := h.mp
+  rw [hs] at hea hmp
+  obtain ⟨hinv, hcap, hms⟩ := hea
+  have hmk := mk_some hr
+  have hlen := abs_length hinv
+  have hts := truncate_spec a s.m hinv
+  have htf := truncate_frame a s.m
+  unfold StepGoal
+  simp only [stepOp, onEa, hs, hmk, monStep, hms, EArray.exportBuf]
+  rcases hres : EArray.truncate a s.m with ⟨ok, a', m'⟩
+  rw [hres] at hts htf
+  obtain ⟨hinv', hok, hfail, hlive⟩ := hts
+  simp only at hinv' hok hfail hlive htf
+  cases ok
+  · -- refused: array unchanged
+    obtain ⟨rfl, hrf⟩ := hfail rfl
+    have e : eaOut .fail a' s.m m' none m' = eaOutOf (EArray.ans .fail a' s.m m' none) s.m m' m' := rfl
+    have hA := eaAns_out (EArray.ans .fail a' s.m m' none) s.m m' m' (by simp [EArray.ans])
+      (by rw [rf_pos htf.1]; rfl)
+    have hsh := (eaCheck_some (shape_abs hinv .fail s.m m' none)).2
+    have hhead : (eaOutOf (EArray.ans St.fail a' s.m m' none) s.m m' m').ans.head = .fail := rfl
+    simp only [e, hA, hhead, hsh]
+    rw [if_pos ⟨rfl, by simp [EArray.ans, hrf], trivial⟩]
+    refine ⟨rfl, ⟨h.capped.ext htf.1, ⟨hinv, hcap, hms⟩, h.eq, h.sm.mono (Nat.le_succ _), ?_, h.inUse⟩⟩
+    refine R_transport hmp htf.1 ?_
+    simp only [eaBlk]; omega
+  · obtain ⟨hsz, hal, hbuf⟩ := hok rfl
+    simp only [Out.ans]
+    have hb : a'.buf.take a'.size = (EArray.abs a).bytes := by
+      rw [hbuf, hsz, List.take_take, Nat.min_self]; rfl
+    rw [if_pos ⟨hb, by rw [hlen]; simp [EArray.getsize, hsz]⟩]
+    have hext := (htf.1.trans (ext_free m' false)).trans (ext_free (m'.free false) (a'.alloc == 0))
+    refine ⟨rfl, ⟨h.capped.ext hext, rfl, h.eq, h.sm.mono (Nat.le_succ _), ?_, h.inUse⟩⟩
+    refine R_transport hmp hext ?_
+    have f1 := (free_facts m' false).2.1
+    have f2 := (free_facts (m'.free false) (a'.alloc == 0)).2.1
+    simp only [eaBlk]
+    rw [f2, f1]
+    simp only [bufBlocks] at hlive ⊢
+    by_cases h0 : a'.alloc = 0 <;> simp [h0] at hlive ⊢ <;> omega
+
+/-- the oracle after the old array, if any, has been released (what a re-initialisation starts from) -/
+def eaFreed (s : DsStep.S) : Mem := match s.ea with | some a => EArray.free a s.m | none => s.m
+
+theorem ea_release {n : Nat} {s : DsStep.S} {ms : Spec.DSMon.S} (h : Rel n s ms) :
+    Ext s.m (eaFreed s) ∧ MPool.R s.mp (eaFreed s) s.inUse (eqBlk s.eq + smBlk s.sm) := by
+  have hmp := h.mp
+  unfold eaFreed
+  cases hs : s.ea with
+  | none => rw [hs] at hmp; simp only [eaBlk, Int.zero_add] at hmp; exact ⟨Ext.refl _, hmp⟩
+  | some a =>
+    rw [hs] at hmp
+    refine ⟨ea_free_ext _ _, R_transport hmp (ea_free_ext _ _) ?_⟩
+    simp only [eaBlk]; rw [EArray.free_live]; omega
+
+theorem stepOp_eaInit (s : DsStep.S) (k reclen seed : Nat) (r : RecLen) (hmk : mkRecLen reclen = some r) :
+    stepOp s (.eaInit k reclen seed) =
+      match EArray.init k r (eaFreed s) with
+      | (none, m') => ({ s with m := m', ea := none }, .initFail (rf (eaFreed s) m') (l2c (eaFreed s) m'))
+      | (some a, m') =>
+        let a := match EArray.fillFrom a 0 (patBytes seed a.size) with | some a' => a' | none => a
+        ({ s with m := m', ea := some a }, eaOut .ok a (eaFreed s) m' none m') := by
+  simp only [stepOp, hmk]; rfl
+
+theorem ea_init_accept {n : Nat} {s : DsStep.S} {ms : Spec.DSMon.S} (h : Rel n s ms) (k reclen seed : Nat)
+    (hr : 0 < reclen) : StepGoal n s ms (.eaInit k reclen seed) := by
+  obtain ⟨hext0, hmp0⟩ := ea_release h
+  have hmk := mk_some hr
+  unfold StepGoal
+  rw [stepOp_eaInit s k reclen seed _ hmk]
+  generalize eaFreed s = m0 at *
+  have hc0 := h.capped.ext hext0
+  have hsp := EArray.init_spec k ⟨reclen, hr⟩ m0
+  have hfr := ea_init_frame k ⟨reclen, hr⟩ m0
+  rcases hres : EArray.init k ⟨reclen, hr⟩ m0 with ⟨oa, m'⟩
+  rw [hres] at hsp hfr
+  simp only at hsp hfr
+  have hext := hext0.trans hfr.1
+  cases oa with
+  | none =>
+    dsimp only
+    simp only [Out.ans]
+    simp only [monStep]
+    have : (some (rf m0 m')).getD 0 > 0 ∨ k * reclen > Percival.Spec.DS.SIZE_MAX := by
+      rcases hsp.2 with h1 | h1
+      · left; simp only [Option.getD_some, rf]; omega
+      · right; rw [← SIZE_MAX_same]; exact h1
+    split
+    · refine ⟨rfl, ⟨h.capped.ext hext, rfl, h.eq, h.sm.mono (Nat.le_succ _), ?_, h.inUse⟩⟩
+      refine R_transport hmp0 hfr.1 ?_
+      simp only [eaBlk]; omega
+    · rename_i hcond; exact absurd this hcond
+  | some a =>
+    obtain ⟨hinv, htight, hsz, _, hlive, hrf⟩ := hsp
+    have hcap := hfr.2 a rfl hc0
+    obtain ⟨a'', hfl, hsz'', hal'', hinv'', hbytes⟩ :=
+      fillFrom_spec (a' := a) (old := 0) (fill := patBytes seed a.size) hinv (by rw [patBytes_length]; rfl)
+    dsimp only
+    simp only [hfl]
+    have habs : ({ bytes := patBytes seed (k * reclen), loose := false } : EaIdeal) = EArray.abs a'' := by
+      apply abs_eq
+      · rw [hbytes]; simp [hsz]
+      · simp only [Tight, hsz'', hal'']; exact htight
+    have e : eaOut .ok a'' m0 m' none m' = eaOutOf (EArray.ans .ok a'' m0 m' none) m0 m' m' := rfl
+    have hA := eaAns_out (EArray.ans .ok a'' m0 m' none) m0 m' m' (by simp [EArray.ans]) (by rw [rf_pos hfr.1]; rfl)
+    have hsh := (eaCheck_some (shape_abs hinv'' .ok m0 m' none)).2
+    have hhead : (eaOutOf (EArray.ans St.ok a'' m0 m' none) m0 m' m').ans.head = .ok := rfl
+    have hsmall : ¬ k * reclen > dataMax := by
+      have := hinv.le; simp only [cap_eq, dataMax_eq] at *; omega
+    simp only [monStep, e, hhead, hA, hsmall, if_false, habs, hsh]
+    rw [if_pos ⟨rfl, trivial⟩]
+    refine ⟨rfl, ⟨h.capped.ext hext, ⟨hinv'', by rw [hal'']; exact hcap, rfl⟩, h.eq, h.sm.mono (Nat.le_succ _), ?_, h.inUse⟩⟩
+    refine R_transport hmp0 hfr.1 ?_
+    simp only [eaBlk, bufBlocks_congr hal'']; omega
 
 end Percival.Proofs.DsStep
